@@ -1,0 +1,54 @@
+//go:build verif
+
+package engine
+
+import "time"
+
+// Hooks for the C14 verification harness (/verif): add-only, compiled only with -tags verif.
+
+// VerifShiftShardTime moves the time range of a shard object by d (see
+// tsi.(*IndexBuilder).VerifShiftTime: the harness emulates a clock tick of dt by moving every
+// time range by -dt; IsExpired / IsTierExpired only look at endTime - now).
+func VerifShiftShardTime(sh Shard, d time.Duration) bool {
+	s, ok := sh.(*shard)
+	if !ok {
+		return false
+	}
+	s.startTime = s.startTime.Add(d)
+	s.endTime = s.endTime.Add(d)
+	return true
+}
+
+// VerifIndexBuilderIDs lists the ids of DBPTInfo.indexBuilder (the index builders the
+// partition holds), unsorted.
+func (dbPT *DBPTInfo) VerifIndexBuilderIDs() []uint64 {
+	dbPT.mu.RLock()
+	defer dbPT.mu.RUnlock()
+	ids := make([]uint64, 0, len(dbPT.indexBuilder))
+	for id := range dbPT.indexBuilder {
+		ids = append(ids, id)
+	}
+	return ids
+}
+
+// VerifShiftIndexTime moves the time range of the index builder id of the partition by d.
+func (dbPT *DBPTInfo) VerifShiftIndexTime(id uint64, d time.Duration) bool {
+	dbPT.mu.RLock()
+	defer dbPT.mu.RUnlock()
+	ib, ok := dbPT.indexBuilder[id]
+	if ok {
+		ib.VerifShiftTime(d)
+	}
+	return ok
+}
+
+// VerifIndexDuration returns (duration, index group id, present) of the index builder id.
+func (dbPT *DBPTInfo) VerifIndexDuration(id uint64) (time.Duration, uint64, bool) {
+	dbPT.mu.RLock()
+	defer dbPT.mu.RUnlock()
+	ib, ok := dbPT.indexBuilder[id]
+	if !ok {
+		return 0, 0, false
+	}
+	return ib.GetDuration(), ib.Ident().Index.IndexGroupID, true
+}
